@@ -16,6 +16,7 @@ package schemaClient
 
 import (
 	"context"
+	"sort"
 	"strings"
 	"sync"
 
@@ -130,10 +131,20 @@ func (scb *SchemaClientBoundImpl) ToPath(ctx context.Context, path []string) (*s
 		if schemaKeys := schema.GetSchema().GetContainer().GetKeys(); schemaKeys != nil {
 			// add key map
 			newPathElem.Key = make(map[string]string, len(schemaKeys))
-			// adding the keys with the value from path[i], which is the key value
+			// adding the keys with the value from path[i], which is the key value.
+			// In the slice the key values are sorted by the key name (see utils.ToStrings()).
+			keyNames := make([]string, 0, len(schemaKeys))
 			for _, k := range schemaKeys {
+				keyNames = append(keyNames, k.Name)
+			}
+			sort.Strings(keyNames)
+			for _, k := range keyNames {
 				i++
-				newPathElem.Key[k.Name] = path[i]
+				if i >= len(path) {
+					// the path ends within the keys
+					break
+				}
+				newPathElem.Key[k] = path[i]
 			}
 		}
 	}
